@@ -118,6 +118,16 @@ def veq (u v : Vec) : Bool :=
 /-- `Norm()²` (the square root is outside the rational model; see [T2] in DESIGN.md) -/
 def vnormSq (u : Vec) : Rat := sumRange u.length (fun i => u.getD i 0 * u.getD i 0)
 
+/-- `Norm()²` as coded since fix 8a680df: the components are scaled by `2^-e` (`e` the binary
+    exponent of the largest magnitude, any integer here), squared and summed, and the root is
+    scaled back by `2^e` — so the square of the result is `(2^e)² · Σ (xᵢ·2^-e)²`.  Value-neutral
+    over the rationals (theorem `vnormScaledSq_eq`); in floating point it avoids overflow and
+    underflow of the squares.  `largest = 0` returns 0 (= the same value). -/
+def vnormScaledSq (e : Int) (u : Vec) : Rat :=
+  let sc : Rat := (2 : Rat) ^ (-e)
+  let up : Rat := (2 : Rat) ^ e
+  (up * up) * sumRange u.length (fun i => (u.getD i 0 * sc) * (u.getD i 0 * sc))
+
 /-- `Vector::operator[]` -/
 def vget (u : Vec) (i : Nat) : Except Err Rat := if i ≥ u.length then .error .diag else .ok (u.getD i 0)
 
